@@ -1,13 +1,13 @@
 SPECIFICATION Spec
 CONSTANTS
  L = 3
- History <- H43
+ History <- HRingChain
  Grid <- Grid3
  Bundle <- Bundle6
  MaxIter = 5
- MaxReject = 3
- Force = FALSE
- Dev <- NoDev
+ MaxReject = 2
+ Force = TRUE
+ Dev <- DevStale
 INVARIANT StepOne
 INVARIANT InBox
 INVARIANT NoOverlap
